@@ -236,13 +236,13 @@ def decodeVOP1 (i : Inst) (row : Row) (w : Nat) : Dec4 :=
     if s0.isLit then .more fun l => .ok (fin (setLit s0 l)) else .done (fin s0)
   | _, _ => .err
 
-def decodeVOPC (i : Inst) (w : Nat) : Dec4 :=
+def decodeVOPC (i : Inst) (row : Row) (w : Nat) : Dec4 :=
   match getOperand (extractBits w 0 8) with
   | some s0 =>
     let b := extractBits w 9 16
-    let s1 := vreg b b 0
-    if s0.isLit then .more fun l => .ok { i with src0 := some (setLit s0 l), src1 := some s1 }
-    else .done { i with src0 := some s0, src1 := some s1 }
+    let s1 := with64 row.src1W (vreg b b 0)
+    if s0.isLit then .more fun l => .ok { i with src0 := some (with64 row.src0W (setLit s0 l)), src1 := some s1 }
+    else .done { i with src0 := some (with64 row.src0W s0), src1 := some s1 }
   | none => .err
 
 def sdwaSel (s : Nat) : Nat :=
@@ -407,7 +407,7 @@ def dec4 (i : Inst) (row : Row) (w : Nat) : Option Dec4 :=
   else if i.ft == FT_VOP2 then some (decodeVOP2 i w)
   else if i.ft == FT_VOP1 then some (decodeVOP1 i row w)
   else if i.ft == FT_SOPP then some (decodeSOPP i w)
-  else if i.ft == FT_VOPC then some (decodeVOPC i w)
+  else if i.ft == FT_VOPC then some (decodeVOPC i row w)
   else if i.ft == FT_SOPC then some (decodeSOPC i w)
   else if i.ft == FT_SOP1 then some (decodeSOP1 i row w)
   else if i.ft == FT_SOPK then some (decodeSOPK i w)
